@@ -66,7 +66,8 @@
    VF_CFG( "act-req-obs-eager", TOP, ACT, vf::obs_control_unw, action, required, eager, true, true, false, true, true );     \
    VF_CFG_MI( "mustif-act-req-eager", TOP, ACT, action, required, eager, true, true, false );                               \
    VF_CFG_MI( "mustif-act-opt-lazy", TOP, ACT, action, optional, lazy, true, false, true );                                 \
-   e.cfgs.push_back( vf::cfg_entry{ "mustif-over-normal-act-req-eager", &vf::runner< TOP, ACT, tao::pegtl::must_if< errs, tao::pegtl::normal, false >::template control, tao::pegtl::apply_mode::action, tao::pegtl::rewind_mode::required, tao::pegtl::tracking_mode::eager, VF_EOL >, true, true, false, false, true, VF_EOL_ID, 0, 1, 1, -1, false, true } )
+   /* must_if over a control without observer hooks (light_control = normal + the span bookkeeping scripted apply0 actions need) */ \
+   e.cfgs.push_back( vf::cfg_entry{ "mustif-over-normal-act-req-eager", &vf::runner< TOP, ACT, tao::pegtl::must_if< errs, vf::light_control, false >::template control, tao::pegtl::apply_mode::action, tao::pegtl::rewind_mode::required, tao::pegtl::tracking_mode::eager, VF_EOL >, true, true, false, false, true, VF_EOL_ID, 0, 1, 1, -1, false, true } )
 #elif VF_CFGSET == 10
 // C08: state_control and coverage wrapped around a must_if control whose failure() raises (errs is emitted with the grammar)
 #define VF_MI_LIGHT tao::pegtl::must_if< errs, vf::light_control, false >::template control
